@@ -1,6 +1,7 @@
 package main
 
 import (
+	"verifharness/internal/tags"
 	"encoding/hex"
 	"reflect"
 	"runtime"
@@ -210,6 +211,55 @@ func aperEncDomain(e *emitter, roundTrip bool) {
 			g.invalid = true
 			emit(n, genValue(g, n), false)
 			g.invalid = false
+		}
+	}
+	// 1b. constraint sweep: every aper tag of every struct type at its boundaries. For each field that carries a size or
+	// value constraint: the bounds themselves, one below the lower bound and one above the upper bound (refused unless the
+	// constraint is extensible); for each OPTIONAL field: present and absent; for each CHOICE: every alternative.
+	// The other fields of the value are random and small. One value of the containing type per (field, mode).
+	for _, n := range all {
+		t := typeByName(n)
+		if t.Kind() != reflect.Struct || !g.canEncode(t) {
+			continue
+		}
+		if isChoiceType(t) {
+			for alt := 1; alt < t.NumField(); alt++ {
+				if !g.canEncode(t.Field(alt).Type) {
+					continue
+				}
+				v := reflect.New(t).Elem()
+				g.budget = 200
+				g.depth = 0
+				g.fillChoice(v, tagsFor(n), alt)
+				emit(n, v, false)
+			}
+			continue
+		}
+		for i := 0; i < t.NumField(); i++ {
+			fp := tags.Parse(t.Field(i).Tag.Get("aper"))
+			var modes []string
+			if fp.SizeLB != nil || fp.SizeUB != nil {
+				modes = append(modes, "size-lb", "size-below")
+				if fp.SizeUB != nil && *fp.SizeUB < 16384 {
+					modes = append(modes, "size-ub", "size-above")
+				}
+			}
+			if fp.ValueLB != nil || fp.ValueUB != nil {
+				modes = append(modes, "val-lb", "val-ub", "val-below", "val-above")
+			}
+			if fp.Optional {
+				modes = append(modes, "present", "absent")
+			}
+			for _, m := range modes {
+				if roundTrip && (m == "size-below" || m == "size-above" || m == "val-below" || m == "val-above") {
+					continue
+				}
+				g.forceType, g.forceField, g.forceMode = t, i, m
+				g.pending, g.injected = "", ""
+				v := genValue(g, n)
+				g.forceType, g.pending = nil, ""
+				emit(n, v, false)
+			}
 		}
 	}
 	// 2. random PDUs, transfers and arbitrary types
